@@ -5,6 +5,7 @@
      "rt":    [specs, text, num, out, text2]      ArgSpecs -> ",".join(str) -> parsed -> printed again
      "pass":  [fields, name, inst, spec, text, num, out, inst2, text2]
                                                   pass instance -> .spec() -> str -> parse_pipeline -> from_spec -> str
+     "pipe":  [elems, text, num, out, res, text2]  pass instances -> ",".join(str) -> PassPipeline.parse_spec -> printed again
      "opt":   [fields, name, text, num, out, inst2]   arbitrary option text handed to from_spec
    Clauses of the property (violations): FailsOnlyWithDiagnostics, RoundTrip, ReprintStable.
    Clauses binding the model to the code (divergences): PrinterMatchesModel, ParserMatchesModel, ToSpecMatchesModel,
@@ -42,6 +43,16 @@ Failing(c) ==
                THEN {"FromSpecMatchesModel"} ELSE {})
          \cup (IF ~(c.out.e = "" /\ c.inst2.e = "" /\ SameInst(c.inst2.inst, PlainInst(c.inst))) THEN {"RoundTrip"} ELSE {})
          \cup (IF c.out.e = "" /\ c.inst2.e = "" /\ c.text2 # c.text THEN {"ReprintStable"} ELSE {})
+    [] c.kind = "pipe" ->      \* several pass instances -> ",".join(str) -> PassPipeline.parse_spec -> instances
+         (IF ~ParserAgrees(c) THEN {"ParserMatchesModel"} ELSE {})
+         \cup (IF c.out.e = "" /\ c.res.e = "" /\ Len(c.out.specs) = Len(c.elems) /\
+                  \E k \in DOMAIN c.elems : LET m == FromSpec(c.elems[k].fields, c.elems[k].name, c.out.specs[k]) IN
+                                             ~(m.e = "" /\ k \in DOMAIN c.res.insts /\ m.inst = c.res.insts[k])
+               THEN {"FromSpecMatchesModel"} ELSE {})
+         \cup (IF ~(c.res.e = "" /\ Len(c.res.insts) = Len(c.elems) /\
+                    \A k \in DOMAIN c.elems : SameInst(c.res.insts[k], PlainInst(c.elems[k].inst)))
+               THEN {"RoundTrip"} ELSE {})
+         \cup (IF c.res.e = "" /\ c.text2 # c.text THEN {"ReprintStable"} ELSE {})
     [] c.kind = "opt" ->
          (IF c.out.e \notin Diagnostics \/ c.inst2.e \notin {"", "ValueError", "skipped"} THEN {"FailsOnlyWithDiagnostics"} ELSE {})
          \cup (IF ~ParserAgrees(c) THEN {"ParserMatchesModel"} ELSE {})
